@@ -22,6 +22,8 @@ import (
 	"errors"
 	"fmt"
 	"os"
+	"reflect"
+	"strconv"
 	"runtime"
 	"sort"
 	"strings"
@@ -469,60 +471,139 @@ func c07FreshPlanner(r *rig, id int) (*c07Planner, *Namespace, error) {
 	return p, ns, nil
 }
 
-// c07RouterSnapshot renders everything a rule exposes about its (shared) routing tables.
+// c07RouterSnapshot is a structural dump of the whole *router.Router: every field of the
+// router, of every rule and of every shard object, exported or not, read through reflection
+// WITHOUT calling any method of the observed objects (a getter that initialises something
+// lazily would otherwise hide exactly the change that is looked for). path -> rendered value.
 func c07RouterSnapshot(ns *Namespace) map[string]string {
-	rt := ns.GetRouter()
 	out := map[string]string{}
-	one := func(name string, ru router.Rule) {
-		idx := ru.GetSubTableIndexes()
-		var sb strings.Builder
-		fmt.Fprintf(&sb, "type=%s db=%s table=%s key=%s linked=%v slices=%v indexes=%v", ru.GetType(), ru.GetDB(), ru.GetTable(), ru.GetShardingColumn(), ru.IsLinkedRule(), ru.GetSlices(), idx)
-		// table -> slice and table -> physical db for every index between first and last (+1 on both sides)
-		if len(idx) > 0 {
-			lo, hi := idx[0], idx[0]
-			for _, i := range idx {
-				if i < lo {
-					lo = i
-				}
-				if i > hi {
-					hi = i
-				}
-			}
-			if hi-lo > 4096 { // date rules index by yyyymmdd: only the listed indexes
-				for _, i := range idx {
-					fmt.Fprintf(&sb, " %d->%d", i, ru.GetSliceIndexFromTableIndex(i))
-				}
-			} else {
-				for i := lo - 1; i <= hi+1; i++ {
-					db := ""
-					if i >= lo && i <= hi && !(router.IsMycatShardingRule(ru.GetType()) || ru.GetType() == router.GlobalTableRuleType) {
-						db, _ = ru.GetDatabaseNameByTableIndex(i)
-					}
-					fmt.Fprintf(&sb, " %d->%d/%s", i, ru.GetSliceIndexFromTableIndex(i), db)
-				}
-			}
-		}
-		if mr, ok := ru.(router.MycatRule); ok {
-			dbs := mr.GetDatabases()
-			fmt.Fprintf(&sb, " mycatdbs=%v", dbs)
-			for _, d := range dbs {
-				i, ok := mr.GetTableIndexByDatabaseName(d)
-				fmt.Fprintf(&sb, " %s=>%d/%v", d, i, ok)
-			}
-		}
-		out[name] = sb.String()
-	}
-	n := 0
-	for db, tbls := range rt.GetAllRules() {
-		for tb, ru := range tbls {
-			one(db+"."+tb, ru)
-			n++
-		}
-	}
-	out["#rules"] = fmt.Sprint(n)
-	d := rt.GetDefaultRule()
-	out["#default"] = fmt.Sprintf("type=%s db=%q slices=%v indexes=%v", d.GetType(), d.GetDB(), d.GetSlices(), d.GetSubTableIndexes())
+	c07Dump(reflect.ValueOf(ns.GetRouter()), "router", out, 0)
 	return out
+}
+
+func c07Scalar(k reflect.Kind) bool {
+	switch k {
+	case reflect.Bool, reflect.Int, reflect.Int8, reflect.Int16, reflect.Int32, reflect.Int64, reflect.Uint, reflect.Uint8, reflect.Uint16,
+		reflect.Uint32, reflect.Uint64, reflect.Uintptr, reflect.Float32, reflect.Float64, reflect.String:
+		return true
+	}
+	return false
+}
+
+func c07ScalarText(v reflect.Value) string {
+	switch v.Kind() {
+	case reflect.Bool:
+		return fmt.Sprint(v.Bool())
+	case reflect.Int, reflect.Int8, reflect.Int16, reflect.Int32, reflect.Int64:
+		return fmt.Sprint(v.Int())
+	case reflect.Uint, reflect.Uint8, reflect.Uint16, reflect.Uint32, reflect.Uint64, reflect.Uintptr:
+		return fmt.Sprint(v.Uint())
+	case reflect.Float32, reflect.Float64:
+		return fmt.Sprint(v.Float())
+	case reflect.String:
+		return strconv.Quote(v.String())
+	}
+	return "?"
+}
+
+func c07Dump(v reflect.Value, path string, out map[string]string, depth int) {
+	if depth > 14 {
+		out[path] = "<depth>"
+		return
+	}
+	if !v.IsValid() {
+		out[path] = "<invalid>"
+		return
+	}
+	switch v.Kind() {
+	case reflect.Ptr, reflect.Interface:
+		if v.IsNil() {
+			out[path] = "nil"
+			return
+		}
+		if v.Kind() == reflect.Interface {
+			out[path+"(type)"] = v.Elem().Type().String()
+		}
+		c07Dump(v.Elem(), path, out, depth+1)
+	case reflect.Struct:
+		for i := 0; i < v.NumField(); i++ {
+			c07Dump(v.Field(i), path+"."+v.Type().Field(i).Name, out, depth+1)
+		}
+		if v.NumField() == 0 {
+			out[path] = "{}"
+		}
+	case reflect.Map:
+		if v.IsNil() {
+			out[path] = "nil-map"
+			return
+		}
+		keys := v.MapKeys()
+		ks := make([]string, len(keys))
+		byText := map[string]reflect.Value{}
+		for i, k := range keys {
+			t := "?"
+			if c07Scalar(k.Kind()) {
+				t = c07ScalarText(k)
+			}
+			ks[i] = t
+			byText[t] = k
+		}
+		sort.Strings(ks)
+		if c07Scalar(v.Type().Elem().Kind()) {
+			var sb strings.Builder
+			fmt.Fprintf(&sb, "map(len %d)", v.Len())
+			for _, t := range ks {
+				sb.WriteString(" " + t + ":" + c07ScalarText(v.MapIndex(byText[t])))
+			}
+			out[path] = sb.String()
+			return
+		}
+		out[path+"(len)"] = fmt.Sprint(v.Len())
+		for _, t := range ks {
+			c07Dump(v.MapIndex(byText[t]), path+"["+strings.Trim(t, "\"")+"]", out, depth+1)
+		}
+	case reflect.Slice, reflect.Array:
+		if v.Kind() == reflect.Slice && v.IsNil() {
+			out[path] = "nil-slice"
+			return
+		}
+		if c07Scalar(v.Type().Elem().Kind()) {
+			var sb strings.Builder
+			fmt.Fprintf(&sb, "[len %d]", v.Len())
+			for i := 0; i < v.Len(); i++ {
+				sb.WriteString(" " + c07ScalarText(v.Index(i)))
+			}
+			out[path] = sb.String()
+			return
+		}
+		out[path+"(len)"] = fmt.Sprint(v.Len())
+		for i := 0; i < v.Len(); i++ {
+			c07Dump(v.Index(i), fmt.Sprintf("%s[%d]", path, i), out, depth+1)
+		}
+	case reflect.Func, reflect.Chan, reflect.UnsafePointer:
+		// not state
+	default:
+		out[path] = c07ScalarText(v)
+	}
+}
+
+// c07DiffName turns the first differing path into the coarse name used in signatures:
+// router.rules[db][table].field
+func c07DiffName(d string) string {
+	if i := strings.Index(d, ": was "); i > 0 {
+		d = d[:i]
+	} else if i := strings.Index(d, ": new "); i > 0 {
+		d = d[:i]
+	}
+	// cut after the first field name behind the rule key
+	if i := strings.LastIndex(d, "]."); i > 0 {
+		rest := d[i+2:]
+		if j := strings.IndexAny(rest, ".[("); j > 0 {
+			rest = rest[:j]
+		}
+		return d[:i+2] + rest
+	}
+	return d
 }
 
 // c07SnapshotDiff lists the rules whose rendering differs (sorted).
@@ -585,7 +666,7 @@ func TestVerif_C07(t *testing.T) {
 	// built from the same config must render identically (else the snapshot itself is unstable).
 	sharedNS := r.m.GetNamespace("c07ns")
 	snap0 := c07RouterSnapshot(sharedNS)
-	rec.Set("router_rules_in_snapshot", snap0["#rules"])
+	rec.Set("router_snapshot_paths", len(snap0))
 	if _, fns, err := c07FreshPlanner(r, 0); err != nil {
 		rec.Inconclusive("cannot build a fresh namespace: " + err.Error())
 		return
@@ -599,10 +680,7 @@ func TestVerif_C07(t *testing.T) {
 	invariant := func(point string) {
 		rec.Count("invariant_checks", 1)
 		if d := c07SnapshotDiff(snap0, c07RouterSnapshot(sharedNS)); len(d) > 0 {
-			name := d[0]
-			if i := strings.Index(name, ":"); i > 0 {
-				name = name[:i]
-			}
+			name := c07DiffName(d[0])
 			rec.Violation("router-state-changed:shared:"+name, fmt.Sprintf("the routing tables shared by all sessions differ from their state after construction (%s): %s", point, strings.Join(d, "; ")),
 				map[string]interface{}{"point": point, "diff": d})
 		}
@@ -692,6 +770,73 @@ func TestVerif_C07(t *testing.T) {
 		c := c07Case{Phase: phase, Stmt: st, Got: got, Baseline: bl, Goroutine: g, Round: round}
 		rec.Sample(c)
 		rec.Violation("plan-differs:"+phase+":"+st.Class, fmt.Sprintf("%s planned concurrently in db %q gave %q, alone %q", st.Text, st.DB, got, bl), c)
+	}
+
+	// ---- cold start: for each statement class a FRESH namespace/router on which several sessions
+	// plan their FIRST statements at the same moment (same and different statements of the class,
+	// released together). State that is initialised lazily by a read path is written here by
+	// several goroutines at once (race detector), and shows in the structural snapshot afterwards.
+	{
+		byClass := map[string][]c07Stmt{}
+		var classNames []string
+		for _, st := range corpus {
+			if _, ok := byClass[st.Class]; !ok {
+				classNames = append(classNames, st.Class)
+			}
+			byClass[st.Class] = append(byClass[st.Class], st)
+		}
+		cr := kit.SubRand(seed, "C07/cold")
+		mixed := kit.N(40, 400)
+		coldG := 8
+		for ci := 0; ci < len(classNames)+mixed; ci++ {
+			var pick func(g int) c07Stmt
+			label := ""
+			if ci < len(classNames) {
+				sts := byClass[classNames[ci]]
+				label = classNames[ci]
+				// goroutines 0..3 the same first statement, the others different ones of the class
+				pick = func(g int) c07Stmt {
+					if g < 4 {
+						return sts[0]
+					}
+					return sts[g%len(sts)]
+				}
+			} else {
+				label = "mixed"
+				picks := make([]c07Stmt, coldG)
+				for g := range picks {
+					picks[g] = corpus[cr.Intn(len(corpus))]
+				}
+				pick = func(g int) c07Stmt { return picks[g] }
+			}
+			_, fns, err := c07FreshPlanner(r, 100000+ci)
+			if err != nil {
+				rec.Inconclusive("cannot build a fresh namespace: " + err.Error())
+				return
+			}
+			var wg sync.WaitGroup
+			start := make(chan struct{})
+			for g := 0; g < coldG; g++ {
+				wg.Add(1)
+				go func(g int) {
+					defer wg.Done()
+					pl := c07NewPlanner(r, 200000+ci*coldG+g)
+					pl.se.contextNamespace = fns
+					st := pick(g)
+					<-start
+					got := pl.plan(st)
+					check("cold", st, got, g, ci)
+				}(g)
+			}
+			close(start)
+			wg.Wait()
+			rec.Count("cold_start_routers", 1)
+			if d := c07SnapshotDiff(snap0, c07RouterSnapshot(fns)); len(d) > 0 {
+				c := c07Case{Phase: "cold-start", Stmt: pick(0), Baseline: d, Round: ci}
+				rec.Violation("router-state-changed:cold:"+label+":"+c07DiffName(d[0]), fmt.Sprintf("after %d sessions planned their first statements (class %s) at the same moment on a fresh router, routing tables that all sessions share differ from their state after construction: %s", coldG, label, strings.Join(d, "; ")), c)
+			}
+			fns.Close(false)
+		}
 	}
 
 	// ---- phase 0: the whole corpus sequentially on the shared router (one session after the
